@@ -1,65 +1,172 @@
 /-
-C10 — order independence: the glyph SETS of a subset are determined by the font and the requested
-glyphs alone.
+C10 — unpacking a successful run of the `Subset` model into the facts the property theorems use:
+the final subsetter state is closed under GSUB rules and composite components and holds exactly the
+glyphs reachable from the requested ones — whatever the iteration order.
 -/
 import SfntV.Proofs.SubsetTotal
+import SfntV.Proofs.SubsetMain
 
 namespace SfntV.Subset
 
-/-- all GSUB rules of a font (none without a GSUB table) -/
-def fontRules (f : Font) : List Rule :=
-  match f.gsub with
-  | none => []
-  | some l => rulesOf l
+theorem ext_eq_of_length {a b : St} (e : Ext a b) (h : b.glyphs.length = a.glyphs.length) :
+    b.glyphs = a.glyphs := by
+  obtain ⟨x, hx⟩ := e
+  rw [hx, List.length_append] at h
+  have : x = [] := List.eq_nil_of_length_eq_zero (by omega)
+  rw [hx, this, List.append_nil]
 
-/-- the facts about the GSUB stage of a successful run (rule order a permutation) -/
-theorem run_gsub {f : Font} {glyphs : List Gid} {o : Order} {sub : Sub} {s1 s2 : St}
-    (hnd : glyphs.Nodup) (hp : ∀ x, (o.rules x).Perm x) (r : RunP f glyphs o sub s1 s2) :
-    (∀ ru ∈ fontRules f, Fires s1 ru) ∧
-    (∀ g, g ∈ s1.glyphs ↔ TextReach glyphs (fontRules f) g) := by
+theorem fires_of_same_glyphs {a b : St} (ha : Inv a) (hb : Inv b) (h : b.glyphs = a.glyphs)
+    {r : Rule} (hf : Fires a r) : Fires b r := by
+  intro hins g hg
+  have hins' : ∀ x ∈ r.ins, a.has x = true := by
+    intro x hx
+    rw [ha.has_iff, ← h, ← hb.has_iff]; exact hins x hx
+  have := hf hins' g hg
+  rw [hb.has_iff, h, ← ha.has_iff]; exact this
+
+/-- one round of `addGsubGlyphs` -/
+theorem gsubRound_spec {f : Font} {glyphs : List Gid} {ro : List Rule → List Rule} {s s1 : St}
+    (h : Inv s) (hp : ∀ x, (ro x).Perm x)
+    (hq : ∀ g ∈ s.glyphs, Reach f glyphs (fontRules f) g) (hr : gsubRound f ro s = some s1) :
+    Inv s1 ∧ Ext s s1 ∧ (∀ r ∈ fontRules f, Fires s1 r) ∧
+    (∀ g ∈ s1.glyphs, Reach f glyphs (fontRules f) g) := by
+  unfold gsubRound at hr
+  cases hg : f.gsub with
+  | none =>
+    rw [hg] at hr; injection hr with hr; subst hr
+    have : fontRules f = [] := by unfold fontRules; rw [hg]
+    rw [this]
+    exact ⟨h, Ext.refl _, by simp, by rw [this] at hq; exact hq⟩
+  | some l =>
+    rw [hg] at hr
+    simp only at hr
+    have hfr : fontRules f = rulesOf l := by unfold fontRules; rw [hg]
+    rw [hfr] at hq ⊢
+    have hgood := gsubClose_good h hr
+    refine ⟨hgood.1, hgood.2, gsubClose_closed h hp hr, ?_⟩
+    exact gsubClose_sound (Reach f glyphs (rulesOf l)) h hp
+      (fun r hrm hins o ho => Reach.rule hrm hins ho) hq hr
+
+/-- one round of `addComponents` -/
+theorem glyfRound_spec {f : Font} {glyphs : List Gid} {ps : List Gid} {s1 s2 : St}
+    (h : Inv s1) (hq : ∀ g ∈ s1.glyphs, Reach f glyphs (fontRules f) g)
+    (hr : glyfRound f ps s1 = some s2) :
+    Inv s2 ∧ Ext s1 s2 ∧
+    (f.isCFF = false → ∀ g ∈ s2.glyphs, ∀ c ∈ (f.glyph g).comps, c ∈ s2.glyphs) ∧
+    (∀ g ∈ s2.glyphs, Reach f glyphs (fontRules f) g) := by
+  unfold glyfRound at hr
+  cases hc : f.isCFF with
+  | true =>
+    rw [hc] at hr; simp only [if_true] at hr
+    injection hr with hr; subst hr
+    exact ⟨h, Ext.refl _, by simp, hq⟩
+  | false =>
+    rw [hc] at hr; simp only [Bool.false_eq_true, if_false] at hr
+    have hd : Done f s1 s1.glyphs := fun g hg hn => absurd hg hn
+    have hsp := closeGlyf_spec f ps s1 s1.glyphs s2 h hd hr
+    refine ⟨hsp.1, hsp.2.1, fun _ => hsp.2.2, ?_⟩
+    exact closeGlyf_sound f (Reach f glyphs (fontRules f))
+      (fun p c hp' hc' => Reach.comp hc hp' hc') ps s1 s1.glyphs s2 h hq (fun t ht => ht) hr
+
+theorem closeAll_spec (f : Font) (glyphs : List Gid) (ro : Nat → List Rule → List Rule)
+    (hp : ∀ k x, (ro k x).Perm x) :
+    ∀ (pss : List (List Gid)) (k : Nat) (s sc : St), Inv s →
+    (∀ g ∈ s.glyphs, Reach f glyphs (fontRules f) g) → closeAll f ro k pss s = some sc →
+    Inv sc ∧ Ext s sc ∧ (∀ r ∈ fontRules f, Fires sc r) ∧
+    (f.isCFF = false → ∀ g ∈ sc.glyphs, ∀ c ∈ (f.glyph g).comps, c ∈ sc.glyphs) ∧
+    (∀ g ∈ sc.glyphs, Reach f glyphs (fontRules f) g) := by
+  intro pss
+  induction pss with
+  | nil => intro k s sc _ _ hr; simp [closeAll] at hr
+  | cons ps rest ih =>
+    intro k s sc h hq hr
+    simp only [closeAll] at hr
+    split at hr
+    · cases hr
+    · rename_i s1 hs1
+      have g1 := gsubRound_spec h (hp k) hq hs1
+      split at hr
+      · cases hr
+      · rename_i s2 hs2
+        have g2 := glyfRound_spec g1.1 g1.2.2.2 hs2
+        split at hr
+        · rename_i hlen
+          injection hr with hr; subst hr
+          have hl1 := ext_length g1.2.1
+          have hl2 := ext_length g2.2.1
+          have e21 : s2.glyphs = s1.glyphs := ext_eq_of_length g2.2.1 (by omega)
+          refine ⟨g2.1, g1.2.1.trans g2.2.1, ?_, g2.2.2.1, g2.2.2.2⟩
+          intro r hrm
+          exact fires_of_same_glyphs g1.1 g2.1 e21 (g1.2.2.1 r hrm)
+        · have := ih (k + 1) s2 sc g2.1 g2.2.2.2 hr
+          exact ⟨this.1, (g1.2.1.trans g2.2.1).trans this.2.1, this.2.2⟩
+
+/-- facts about a successful run; `s` is the final subsetter state -/
+structure RunP (f : Font) (glyphs : List Gid) (sub : Sub) (s : St) : Prop where
+  inv : Inv s
+  ext : Ext (St.init glyphs) s
+  rules : ∀ r ∈ fontRules f, Fires s r
+  closed : f.isCFF = false → ∀ g ∈ s.glyphs, ∀ c ∈ (f.glyph g).comps, c ∈ s.glyphs
+  reach : ∀ g, g ∈ s.glyphs ↔ Reach f glyphs (fontRules f) g
+  inRange : ∀ g ∈ s.glyphs, g < f.glyphs.length
+  gsub : (f.gsub = none ∧ sub.gsub = none) ∨
+    (∃ l, f.gsub = some l ∧ (subLookups s l.lookups).1 = s ∧
+      sub.gsub = some ⟨l.features, (subLookups s l.lookups).2⟩)
+  eq : sub = assemble f s sub.gsub
+
+theorem subset_ok {f : Font} {glyphs : List Gid} {o : Order} {sub : Sub}
+    (hnd : glyphs.Nodup) (hp : ∀ k x, (o.rules k x).Perm x) (h : subset f glyphs o = .ok sub) :
+    ∃ s, RunP f glyphs sub s := by
   have h0 := init_inv hnd
-  rcases r.gsubRun with ⟨h1, _, h3⟩ | ⟨l, lay, h1, h2, _⟩
-  · have hr : fontRules f = [] := by unfold fontRules; rw [h1]
-    rw [hr]
-    refine ⟨by simp, ?_⟩
-    intro g
-    rw [h3]
-    constructor
-    · intro hg; exact TextReach.base hg
-    · intro hg
-      cases hg with
-      | base hm => exact hm
-      | rule hr' _ _ => cases hr'
-  · have hr : fontRules f = rulesOf l := by unfold fontRules; rw [h1]
-    rw [hr]
-    have hf := subsetGsub_full h0 hp h2
-    refine ⟨hf.2.2.1, ?_⟩
-    intro g
-    constructor
-    · intro hg; exact hf.2.2.2.1 g hg
-    · intro hg
-      exact textReach_mem hf.1 (fun x hx => ext_mem hf.2.1 hx) hf.2.2.1 hg
-
-/-- the final glyph list is exactly the reachable set -/
-theorem run_order {f : Font} {glyphs : List Gid} {o : Order} {sub : Sub} {s1 s2 : St}
-    (hnd : glyphs.Nodup) (hp : ∀ x, (o.rules x).Perm x) (r : RunP f glyphs o sub s1 s2) :
-    ∀ g, g ∈ s2.glyphs ↔ Reach f glyphs (fontRules f) g := by
-  have hg := run_gsub hnd hp r
-  intro g
-  constructor
-  · intro hm
-    cases hc : f.isCFF with
-    | true =>
-      rw [r.cff hc] at hm
-      exact Reach.text ((hg.2 g).1 hm)
-    | false =>
-      exact closeGlyf_sound f (Reach f glyphs (fontRules f))
-        (fun p c hp' hc' => Reach.comp hc hp' hc') o.pops s1 s1.glyphs s2 r.inv1
-        (fun x hx => Reach.text ((hg.2 x).1 hx)) (fun t ht => ht) (r.glyfRun hc) g hm
-  · intro hr
-    induction hr with
-    | text ht => exact ext_mem r.ext2 ((hg.2 _).2 ht)
-    | comp hc _ hcm ih => exact r.closed hc _ ih _ hcm
+  unfold subset at h
+  split at h
+  · cases h
+  · rename_i sc hsc
+    have hq0 : ∀ g ∈ (St.init glyphs).glyphs, Reach f glyphs (fontRules f) g :=
+      fun g hg => Reach.base hg
+    have hs := closeAll_spec f glyphs o.rules hp o.pops 0 _ sc h0 hq0 hsc
+    -- step 3 appends nothing
+    have hreb : (rebuildGsub sc f.gsub).1 = sc := by
+      unfold rebuildGsub
+      cases hg : f.gsub with
+      | none => rfl
+      | some l =>
+        simp only
+        have hfr : fontRules f = rulesOf l := by unfold fontRules; rw [hg]
+        exact (subLookups_closed sc l.lookups (by
+          intro r hrm; apply hs.2.2.1 r; rw [hfr]; simpa [rulesOf] using hrm)).1
+    simp only at h
+    rw [hreb] at h
+    split at h
+    · cases h
+    · rename_i hrange
+      injection h with h
+      refine ⟨sc, ⟨hs.1, hs.2.1, hs.2.2.1, hs.2.2.2.1, ?_, ?_, ?_, ?_⟩⟩
+      · intro g
+        constructor
+        · exact hs.2.2.2.2 g
+        · intro hr
+          induction hr with
+          | base hm => exact ext_mem hs.2.1 hm
+          | rule hrm _ ho ih =>
+            have := hs.2.2.1 _ hrm (fun i hi => (hs.1.has_iff i).2 (ih i hi)) _ ho
+            exact (hs.1.has_iff _).1 this
+          | comp hc _ hcm ih => exact hs.2.2.2.1 hc _ ih _ hcm
+      · intro g hg'
+        rcases Nat.lt_or_ge g f.glyphs.length with hlt | hge
+        · exact hlt
+        · exfalso; apply hrange
+          rw [List.any_eq_true]; exact ⟨g, hg', by simpa using hge⟩
+      · rw [← h]
+        cases hg : f.gsub with
+        | none => left; exact ⟨rfl, by simp [assemble, rebuildGsub]⟩
+        | some l =>
+          right
+          have hfr : fontRules f = rulesOf l := by unfold fontRules; rw [hg]
+          have hl := subLookups_closed sc l.lookups (by
+            intro r hrm; apply hs.2.2.1 r; rw [hfr]; simpa [rulesOf] using hrm)
+          exact ⟨l, rfl, hl.1, by simp [assemble, rebuildGsub]⟩
+      · rw [← h]; rfl
 
 theorem perm_of_same_mem {l1 l2 : List Gid} (h1 : l1.Nodup) (h2 : l2.Nodup)
     (h : ∀ g, g ∈ l1 ↔ g ∈ l2) : l1.Perm l2 :=
